@@ -111,7 +111,7 @@ Definition dec_FragSessionStatusAns (data : list N) : outcome payload :=
   do b3 <- idx data 3;
   Ok (FragSessionStatusAns (N.shiftr b1 6) (N.land v 0x3fff) miss (nz (N.land b3 0x01))).
 
-(* commandPayloadRegistry: fragmentation.go:36-51 *)
+(* commandPayloadRegistry: fragmentation.go:37-52 *)
 Definition lookup (uplink : bool) (cid : N) : option (list N -> outcome payload) :=
   if uplink then
     match cid with
